@@ -23,7 +23,11 @@ logging.disable(logging.CRITICAL)
 ID = 'C18'
 N = {'quick': 420, 'thorough': 14000}
 LEAN_MODULES = ['GnpyProofs.Props.C18']
-THEOREMS = []
+THEOREMS = ([f'Gnpy.Round.{t}' for t in ('fmt_error_bound', 'fmt_fixpoint', 'fmt_exact')]
+            + [f'Gnpy.Yang.{t}' for t in (
+                'none_empty_inverse', 'none_to_empty_idempotent', 'convert_dict_idempotent', 'range_roundtrip',
+                'delta_power_range_fails_current', 'delta_power_range_fixed_witness', 'raman_efficiency_fails_current',
+                'alias_entries', 'alias_fails_pre_fix')])
 RULE = ('documents of the five kinds (topology, equipment, services, spectrum, sim-params) generated from one PRNG with '
         'every field the loaders know: per-degree targets of the three kinds, design bands, per-frequency loss, lumped '
         'losses, Raman coefficients / efficiency, pumps, penalties, aliases (entry and mode level), nulls, several SI/Span '
